@@ -48,7 +48,7 @@ fn observe(chain: &[BlockSpec], coin: &str, place: usize) -> std::result::Result
     drive_with(d.path(), coin, 0, None, false, Box::new(Balances::new(&m).map_err(|e| e.to_string())?))?;
     drive_with(d.path(), coin, 0, None, false, Box::new(SimpleStats::default()))?;
     let mut op_err: Option<String> = None;
-    let printed = capture_stdout(|| { if let Err(e) = drive_with(d.path(), coin, 0, None, false, Box::new(OpReturn)) { op_err = Some(e); } });
+    let printed = capture_stdout(|| { if let Err(e) = drive_with(d.path(), coin, 0, None, false, Box::new(OpReturn::new(&OpReturn::build_subcommand().get_matches_from(vec!["opreturn"])).unwrap())) { op_err = Some(e); } });
     if let Some(e) = op_err { return Err(e); }
     let victim = hex_rev(&chain[2].txs[2].txid());
     let rd = |n: &str| csv_lines(&out.path().join(n));
